@@ -66,6 +66,51 @@ Proof. intros a b. unfold k_ext_dep. apply app_inv_head. Qed.
 Lemma k_ext_var_inj : forall a b, k_ext_var a = k_ext_var b -> a = b.
 Proof. intros a b. unfold k_ext_var. apply app_inv_head. Qed.
 
+(* ---- dec_nat is injective: a decimal rendering can be read back ---- *)
+Definition dval (b : bytes) : N := fold_left (fun acc c => (10 * acc + (N_of_ascii c - 48))%N) b 0%N.
+
+Lemma dec_pos_fuel_app : forall fuel n acc, dec_pos_fuel fuel n acc = dec_pos_fuel fuel n [] ++ acc.
+Proof.
+  induction fuel as [|f IH]; intros n acc; [reflexivity|].
+  cbn [dec_pos_fuel]. destruct (n <? 10)%N; [reflexivity|].
+  rewrite (IH (n / 10)%N (_ :: acc)), (IH (n / 10)%N [_]), <- app_assoc. reflexivity.
+Qed.
+
+Lemma dval_snoc : forall l c, dval (l ++ [c]) = (10 * dval l + (N_of_ascii c - 48))%N.
+Proof. intros l c. unfold dval. rewrite fold_left_app. reflexivity. Qed.
+
+Lemma digit_back : forall m, (m < 10)%N -> (N_of_ascii (ascii_of_N (48 + m)) - 48 = m)%N.
+Proof. intros m Hm. rewrite N_ascii_embedding by lia. lia. Qed.
+
+Lemma dval_dec_pos_fuel : forall fuel n, (n < 2 ^ N.of_nat fuel)%N -> dval (dec_pos_fuel fuel n []) = n.
+Proof.
+  induction fuel as [|f IH]; intros n Hn.
+  - cbn in Hn. assert (n = 0%N) by lia. subst. reflexivity.
+  - cbn [dec_pos_fuel]. destruct (n <? 10)%N eqn:Hlt.
+    + apply N.ltb_lt in Hlt. change (dval [ascii_of_N (48 + n mod 10)]) with (10 * 0 + (N_of_ascii (ascii_of_N (48 + n mod 10)) - 48))%N.
+      rewrite digit_back by (apply N.mod_lt; lia). rewrite N.mod_small by exact Hlt. lia.
+    + apply N.ltb_ge in Hlt. rewrite dec_pos_fuel_app, dval_snoc.
+      rewrite digit_back by (apply N.mod_lt; lia).
+      rewrite IH.
+      * pose proof (N.div_mod n 10). lia.
+      * rewrite Nnat.Nat2N.inj_succ, N.pow_succ_r' in Hn. apply N.div_lt_upper_bound; lia.
+Qed.
+
+Lemma dval_dec_N : forall n, dval (dec_N n) = n.
+Proof.
+  intros n. unfold dec_N. apply dval_dec_pos_fuel.
+  rewrite Nnat.Nat2N.inj_succ, Nnat.N2Nat.id.
+  destruct n as [|p]; [cbn; lia|]. apply N.log2_spec. lia.
+Qed.
+
+Theorem dec_nat_inj : forall a b, dec_nat a = dec_nat b -> a = b.
+Proof.
+  intros a b Heq. unfold dec_nat in Heq. apply Nnat.Nat2N.inj.
+  rewrite <- (dval_dec_N (N.of_nat a)), <- (dval_dec_N (N.of_nat b)), Heq. reflexivity.
+Qed.
+Lemma k_fun_dep_inj : forall a b, k_fun_dep a = k_fun_dep b -> a = b.
+Proof. intros a b H. unfold k_fun_dep in H. apply app_inv_head in H. apply dec_nat_inj. exact H. Qed.
+
 (* no key of one family equals a key of another family *)
 Theorem key_disjoint : forall n p i m v,
   let ks := [k_arg n; k_dep p; k_fun_dep i; k_ext_dep m; k_ext_var v; k_body_sig; k_fun_input; k_fun_inter; k_fun_deps] in
@@ -989,3 +1034,440 @@ Proof.
   injection Heq as E1 E2 E3 E4 E5 E6.
   destruct Hne as [N|[N|[N|[N|[N|N]]]]]; apply N; assumption.
 Qed.
+
+(* ---- non-vacuity: a function reading a variable and an external name, keeping a child with a run-time argument,
+        then loading the kept path ---- *)
+Definition ex_hv (v : pyval) : hres :=
+  match v with
+  | VNone => HOk (bs "h:none")
+  | VInt z => HOk (bs "h:int:" ++ dec_Z z)
+  | VStr s => HOk (bs "h:str:" ++ s)
+  | _ => HErrType
+  end.
+Definition ex_hl (ls : list bytes) : hres := HOk (bs "h:lines:" ++ join (bs "|") ls).
+
+Definition ex_g : fn :=
+  Fn (bs "pkg/mod/g") (bs "g") None [bs "def g(x, y=2):"; bs "    return x + y"; bs ""]
+     [Param (bs "x") POK None; Param (bs "y") POK (Some (VInt 2))] None false
+     (BCons (Body [] [] SNil) BNil).
+Definition ex_f : fn :=
+  Fn (bs "pkg/mod/f") (bs "f") None
+     [bs "def f():"; bs "    a = dds.keep('/p', g, v)"; bs "    b = dds.load('/p')"; bs "    return np.sum(a, b)"; bs ""]
+     [] None false
+     (BCons (Body [(bs "v", VInt 3)] [(bs "np", bs "numpy")]
+                  (SCons (SKeep 1 1 (bs "/p") ex_g [(EVar 0, ARun)] []) (SCons (SLoad (bs "/p")) SNil)))
+            BNil).
+
+Definition ex_content_g_site : content :=
+  Content (bs "h:lines:def f():|    a = dds.keep('/p', g, v)") (ArgsKnown []) [] [] [(bs "np", bs "numpy")] [(bs "v", bs "h:int:3")].
+Definition ex_content_g : content :=
+  Content (bs "h:lines:def g(x, y=2):|    return x + y|") (ArgsFromContext ex_content_g_site) [] [] [] [].
+Definition ex_content_f : content :=
+  Content (bs "h:lines:def f():|    a = dds.keep('/p', g, v)|    b = dds.load('/p')|    return np.sum(a, b)|")
+          (ArgsKnown []) [(bs "/p", enc ex_content_g)] [ex_content_g] [(bs "np", bs "numpy")] [(bs "v", bs "h:int:3")].
+
+Example ex_sana_succeeds :
+  exists x R', sana ex_hv ex_hl ex_f ([], None) [] = inr (x, R') /\
+               sfi_sig x = enc ex_content_f /\
+               content_of ex_hv ex_hl ex_f ([], None) [] = Some ex_content_f.
+Proof.
+  eexists. eexists. split; [vm_compute; reflexivity|]. split; vm_compute; reflexivity.
+Qed.
+
+(* ================================================================================================================ *)
+(* 4b. when every argument is known the call-site context is not read (symbolic counterpart of                       *)
+(*     SigProofs.ctx_free_when_args_known): the root theorem holds for any context key                              *)
+(* ================================================================================================================ *)
+Section Known.
+  Variable hv : pyval -> hres.
+  Variable hl : list bytes -> hres.
+
+  Definition args_known (named : list (bytes * option bytes)) : bool :=
+    negb (existsb (fun nh : bytes * option bytes => match snd nh with None => true | Some _ => false end) named).
+
+  Lemma sargpairs_known : forall named k1 k2, args_known named = true -> sargpairs (named, k1) = sargpairs (named, k2).
+  Proof.
+    intros named k1 k2 Hk. unfold args_known in Hk. apply negb_true_iff in Hk. unfold sargpairs. rewrite Hk. reflexivity.
+  Qed.
+
+  Lemma sana_body_known : forall b named k1 k2 name lines annot R, args_known named = true ->
+    sana_body hv hl b name lines annot (named, k1) R = sana_body hv hl b name lines annot (named, k2) R.
+  Proof.
+    intros [vars exts sts] named k1 k2 name lines annot R Hk.
+    rewrite !sana_body_eq. rewrite (sargpairs_known named k1 k2 Hk). reflexivity.
+  Qed.
+
+  Lemma sana_bodies_known : forall bds named k1 k2 name lines annot R, args_known named = true ->
+    sana_bodies hv hl bds name lines annot (named, k1) R = sana_bodies hv hl bds name lines annot (named, k2) R.
+  Proof.
+    induction bds as [|b r IH]; intros named k1 k2 name lines annot R Hk; [reflexivity|].
+    rewrite !sana_bodies_cons. rewrite (sana_body_known b named k1 k2 name lines annot R Hk).
+    destruct (sana_body hv hl b name lines annot (named, k2) R) as [e|[t R']]; [reflexivity|].
+    rewrite (IH named k1 k2 name lines annot R' Hk). reflexivity.
+  Qed.
+
+  Theorem sana_key_irrelevant : forall f named k1 k2 R, args_known named = true ->
+    sana hv hl f (named, k1) R = sana hv hl f (named, k2) R.
+  Proof.
+    intros [name tag raises lines params annot is_class bds] named k1 k2 R Hk.
+    rewrite !sana_eq. destruct is_class.
+    - rewrite (sana_bodies_known bds named k1 k2 name lines None R Hk). reflexivity.
+    - destruct bds as [|b r]; [reflexivity|].
+      rewrite (sana_body_known b named k1 k2 name lines annot R Hk). reflexivity.
+  Qed.
+
+  (* nodes whose arguments are all known, analysed under ANY context key *)
+  Corollary sig_injective_known : forall f named key R x R' f2 named2 key2 R2 x2 R2',
+    args_known named = true -> args_known named2 = true ->
+    sana hv hl f (named, key) R = inr (x, R') -> sana hv hl f2 (named2, key2) R2 = inr (x2, R2') ->
+    sfi_sig x = sfi_sig x2 ->
+    content_of hv hl f (named, None) R = content_of hv hl f2 (named2, None) R2 /\
+    content_of hv hl f (named, None) R <> None.
+  Proof.
+    intros f named key R x R' f2 named2 key2 R2 x2 R2' Hk Hk2 H1 H2.
+    rewrite (sana_key_irrelevant f named key None R Hk) in H1.
+    rewrite (sana_key_irrelevant f2 named2 key2 None R2 Hk2) in H2.
+    exact (sig_injective_root hv hl f named R x R' f2 named2 R2 x2 R2' H1 H2).
+  Qed.
+End Known.
+
+(* ================================================================================================================ *)
+(* 5. faithfulness: with the value hash of Sig.v, rendering the symbolic analysis gives the analysis of Sig.v       *)
+(* ================================================================================================================ *)
+Section Faithful.
+  Variable H : bytes -> bytes.
+  Variable mx : option N.
+
+  Definition hv0 (v : pyval) : hres := dds_hash H mx v.
+  Definition hl0 (ls : list bytes) : hres := dds_hash H mx (VList (map VStr ls)).
+
+  Notation rd := (render H).
+  Notation rp := (render_pairs H).
+  Notation rs := (render_sfi H).
+
+  Lemma render_comb_eq : forall l,
+    rd (DComb l) = match dds_hash_commut H (rp l) with Some s => s | None => H [] end.
+  Proof. reflexivity. Qed.
+
+  Lemma render_sfi_eq : forall s p n a l ch, rs (SFI s p n a l ch) = FI (rd s) p n a l (map rs ch).
+  Proof. reflexivity. Qed.
+
+  Lemma fi_sig_render : forall x, fi_sig (rs x) = rd (sfi_sig x).
+  Proof. intros [s p n a l ch]. reflexivity. Qed.
+
+  Lemma X_render : forall l, X H (rp l) = option_map rd (SX l).
+  Proof.
+    intros [|x l]; [reflexivity|]. cbn [SX option_map]. rewrite render_comb_eq.
+    unfold X. cbn [render_pairs map]. unfold dds_hash_commut. reflexivity.
+  Qed.
+
+  Lemma rp_app : forall a b, rp (a ++ b) = rp a ++ rp b.
+  Proof. intros a b. unfold render_pairs. apply map_app. Qed.
+
+  Lemma rlookup_render : forall p R, rlookup p (rp R) = option_map rd (srlookup p R).
+  Proof.
+    induction R as [|[k v] t IH]; [reflexivity|].
+    cbn [render_pairs map fst snd rlookup srlookup]. destruct (bytes_eqb p k); [reflexivity|exact IH].
+  Qed.
+
+  Lemma rupdate_render : forall p s R, rupdate p (rd s) (rp R) = rp (srupdate p s R).
+  Proof.
+    induction R as [|[k v] t IH]; [reflexivity|].
+    cbn [render_pairs map fst snd rupdate srupdate]. destruct (bytes_eqb p k); [reflexivity|].
+    cbn [map fst snd]. f_equal. exact IH.
+  Qed.
+
+  Lemma hash_lines_render : forall ls,
+    hash_lines H mx ls = match shash_lines hl0 ls with inl e => inl e | inr d => inr (rd d) end.
+  Proof. intros ls. unfold hash_lines, shash_lines, hl0. destruct (dds_hash H mx _); reflexivity. Qed.
+
+  Lemma siglist_from_render : forall l i, fis_siglist_from i (map rs l) = rp (sfis_siglist_from i l).
+  Proof.
+    induction l as [|x l IH]; intros i; [reflexivity|].
+    cbn [map fis_siglist_from sfis_siglist_from render_pairs fst snd]. rewrite fi_sig_render. f_equal. apply IH.
+  Qed.
+  Lemma siglist_render : forall l, fis_siglist (map rs l) = rp (sfis_siglist l).
+  Proof. intros l. apply siglist_from_render. Qed.
+
+  Lemma dep_pairs_render : forall l, dep_pairs (rp l) = rp (sdep_pairs l).
+  Proof. intros l. unfold dep_pairs, sdep_pairs, render_pairs. rewrite !map_map. reflexivity. Qed.
+
+  Lemma extpairs_render : forall l, extpairs H l = rp (sextpairs l).
+  Proof. intros l. unfold extpairs, sextpairs, render_pairs. rewrite map_map. reflexivity. Qed.
+
+  Lemma argpairs_render : forall named key,
+    argpairs (named, option_map rd key) =
+    match sargpairs (named, key) with inl e => inl e | inr l => inr (rp l) end.
+  Proof.
+    intros named key. unfold argpairs, sargpairs. destruct (existsb _ named).
+    - destruct key; reflexivity.
+    - f_equal. induction named as [|[n [h|]] t IH]; [reflexivity| |].
+      + cbn [flat_map snd fst app render_pairs map render]. f_equal. exact IH.
+      + cbn [flat_map snd fst app]. exact IH.
+  Qed.
+
+  Lemma varpairs_render : forall vars,
+    varpairs H mx vars = match svarpairs hv0 vars with inl e => inl e | inr l => inr (rp l) end.
+  Proof.
+    induction vars as [|[n v] r IH]; [reflexivity|].
+    cbn [varpairs svarpairs]. unfold hv0 at 1. destruct (dds_hash H mx v); try reflexivity.
+    rewrite IH. destruct (svarpairs hv0 r); reflexivity.
+  Qed.
+
+  Lemma arg_ctx_ast_render : forall ps idx pos kw,
+    arg_ctx_ast H mx ps idx pos kw = sarg_ctx_ast hv0 ps idx pos kw.
+  Proof.
+    induction ps as [|p r IH]; intros idx pos kw; [reflexivity|].
+    cbn [arg_ctx_ast sarg_ctx_ast]. rewrite IH. reflexivity.
+  Qed.
+
+  Lemma callee_ctx_plain_render : forall g, callee_ctx_plain H mx g = scallee_ctx_plain hv0 g.
+  Proof. intros g. apply arg_ctx_ast_render. Qed.
+
+  Lemma input_sig_render : forall ap ep vp,
+    match X H (rp ap ++ rp ep ++ rp vp) with Some s => s | None => empty_list_hash H end =
+    rd (match SX (ap ++ ep ++ vp) with Some s => s | None => sempty_list_hash end).
+  Proof.
+    intros ap ep vp. rewrite <- !rp_app, X_render. destruct (SX (ap ++ ep ++ vp)); reflexivity.
+  Qed.
+
+  Lemma call_ctx_render : forall lines line eline isig inters loads,
+    call_ctx H mx lines line eline (rd isig) (map rs inters) (rp loads) =
+    match scall_ctx hl0 lines line eline isig inters loads with inl e => inl e | inr c => inr (rd c) end.
+  Proof.
+    intros lines line eline isig inters loads. unfold call_ctx, scall_ctx.
+    rewrite hash_lines_render. destruct (shash_lines hl0 _) as [e|bh]; [reflexivity|].
+    rewrite siglist_render, dep_pairs_render, !X_render.
+    set (inter := match SX (sfis_siglist inters) with Some ih => [(k_fun_inter, ih)] | None => [] end).
+    set (deps := match SX (sdep_pairs loads) with Some dh => [(k_fun_deps, dh)] | None => [] end).
+    replace (match option_map rd (SX (sfis_siglist inters)) with Some ih => [(k_fun_inter, ih)] | None => [] end)
+      with (rp inter) by (unfold inter; destruct (SX (sfis_siglist inters)); reflexivity).
+    replace (match option_map rd (SX (sdep_pairs loads)) with Some dh => [(k_fun_deps, dh)] | None => [] end)
+      with (rp deps) by (unfold deps; destruct (SX (sdep_pairs loads)); reflexivity).
+    change ([(k_body_sig, rd bh); (k_fun_input, rd isig)]) with (rp [(k_body_sig, bh); (k_fun_input, isig)]).
+    rewrite <- !rp_app, X_render. reflexivity.
+  Qed.
+
+  Definition rmap (r : aerr + (sfi * sresolved)) : aerr + (fi * resolved) :=
+    match r with inl e => inl e | inr (x, R) => inr (rs x, rp R) end.
+  Definition rmap_l (r : aerr + (list sfi * sresolved)) : aerr + (list fi * resolved) :=
+    match r with inl e => inl e | inr (xs, R) => inr (map rs xs, rp R) end.
+  Definition r3 (a : sst3) : st3 := match a with (xs, l, R) => (map rs xs, rp l, rp R) end.
+  Definition rmap3 (r : aerr + sst3) : aerr + st3 := match r with inl e => inl e | inr a => inr (r3 a) end.
+  Definition rkey (A : sargctx) : argctx := (fst A, option_map rd (snd A)).
+
+  Definition FF_fn (f : fn) : Prop := forall A R, ana H mx f (rkey A) (rp R) = rmap (sana hv0 hl0 f A R).
+  Definition FF_body (b : body) : Prop := forall name lines annot A R,
+    ana_body H mx b name lines annot (rkey A) (rp R) = rmap (sana_body hv0 hl0 b name lines annot A R).
+  Definition FF_bodies (bds : bodies) : Prop :=
+    (forall name lines annot A R,
+       ana_bodies H mx bds name lines annot (rkey A) (rp R) = rmap_l (sana_bodies hv0 hl0 bds name lines annot A R)) /\
+    match bds with BCons b _ => FF_body b | BNil => True end.
+  Definition FF_steps (sts : steps) : Prop := forall lines isig acc,
+    ana_steps H mx sts lines (rd isig) (r3 acc) = rmap3 (sana_steps hv0 hl0 sts lines isig acc).
+  Definition FF_step (s : step) : Prop := forall lines isig acc,
+    ana_step H mx s lines (rd isig) (r3 acc) = rmap3 (sana_step hv0 hl0 s lines isig acc).
+
+  (* one-step unfoldings of Sig.ana (as in SigProofs.v) *)
+  Lemma ana_eq' : forall name tag raises lines params annot is_class bds A R,
+    ana H mx (Fn name tag raises lines params annot is_class bds) A R =
+    if is_class then
+      match ana_bodies H mx bds name lines None A R with
+      | inl e => inl e
+      | inr (mfis, R') =>
+        match hash_lines H mx lines with
+        | inl e => inl e
+        | inr bsig =>
+          match X H ((k_body_sig, bsig) :: fis_siglist mfis) with
+          | None => inl ErrEmpty
+          | Some s => inr (FI s None name (List.length (fst A)) [] mfis, R')
+          end
+        end
+      end
+    else match bds with
+         | BCons b _ =>
+           match ana_body H mx b name lines annot A R with
+           | inl e => inl e
+           | inr (x, R') => inr (x, match annot with Some p => rupdate p (fi_sig x) R' | None => R' end)
+           end
+         | BNil => inl ErrEmpty
+         end.
+  Proof. reflexivity. Qed.
+
+  Lemma ana_bodies_cons' : forall b r name lines annot A R,
+    ana_bodies H mx (BCons b r) name lines annot A R =
+    match ana_body H mx b name lines annot A R with
+    | inl e => inl e
+    | inr (x, R') =>
+      match ana_bodies H mx r name lines annot A R' with
+      | inl e => inl e
+      | inr (xs, R'') => inr (x :: xs, R'')
+      end
+    end.
+  Proof. reflexivity. Qed.
+
+  Lemma ana_body_eq' : forall vars exts sts name lines annot A R,
+    ana_body H mx (Body vars exts sts) name lines annot A R =
+    match argpairs A with
+    | inl e => inl e
+    | inr ap =>
+      match varpairs H mx vars with
+      | inl e => inl e
+      | inr vp =>
+        match ana_steps H mx sts lines
+                (match X H (ap ++ extpairs H exts ++ vp) with Some s => s | None => empty_list_hash H end) ([], [], R) with
+        | inl e => inl e
+        | inr (inters, loads, R') =>
+          match hash_lines H mx lines with
+          | inl e => inl e
+          | inr bsig =>
+            match X H ([(k_body_sig, bsig)] ++ ap ++ dep_pairs loads ++ fis_siglist inters ++ extpairs H exts ++ vp) with
+            | None => inl ErrEmpty
+            | Some s => inr (FI s annot name (List.length (fst A)) (map fst loads) inters, R')
+            end
+          end
+        end
+      end
+    end.
+  Proof. reflexivity. Qed.
+
+  Lemma ana_steps_cons' : forall s r lines isig acc,
+    ana_steps H mx (SCons s r) lines isig acc =
+    match ana_step H mx s lines isig acc with
+    | inl e => inl e
+    | inr acc' => ana_steps H mx r lines isig acc'
+    end.
+  Proof. reflexivity. Qed.
+
+  Definition call_g' (g : fn) (cr : aerr + bytes) (nr : actx_err + list (bytes * option bytes))
+             (post : fi -> resolved -> st3) (R : resolved) : aerr + st3 :=
+    match cr with
+    | inl e => inl e
+    | inr c =>
+      match nr with
+      | inl e => inl (ErrArg e)
+      | inr named =>
+        match ana H mx g (named, Some c) R with
+        | inl e => inl e
+        | inr (t, R') => inr (post t R')
+        end
+      end
+    end.
+
+  Lemma ana_step_SCall' : forall line eline g args lines isig inters loads R,
+    ana_step H mx (SCall line eline g args) lines isig (inters, loads, R) =
+    call_g' g (call_ctx H mx lines line eline isig inters loads) (callee_ctx_plain H mx g)
+            (fun t R' => (inters ++ [t], loads, R')) R.
+  Proof. reflexivity. Qed.
+  Lemma ana_step_SRef' : forall line g ex lines isig inters loads R,
+    ana_step H mx (SRef line g ex) lines isig (inters, loads, R) =
+    call_g' g (call_ctx H mx lines line line isig inters loads) (callee_ctx_plain H mx g)
+            (fun t R' => (inters ++ [t], loads, R')) R.
+  Proof. reflexivity. Qed.
+  Lemma ana_step_SApply' : forall g lines isig acc, ana_step H mx (SApply g) lines isig acc = inr acc.
+  Proof. intros g lines isig [[inters loads] R]. reflexivity. Qed.
+  Lemma ana_step_SKeep' : forall line eline p g pos kw lines isig inters loads R,
+    ana_step H mx (SKeep line eline p g pos kw) lines isig (inters, loads, R) =
+    call_g' g (call_ctx H mx lines line eline isig inters loads)
+            (arg_ctx_ast H mx (fn_params g) 0 (map snd pos) (map (fun nk => (fst nk, snd (snd nk))) kw))
+            (fun t R' => (inters ++ [fi_set_path t p], loads, rupdate p (fi_sig t) R')) R.
+  Proof. reflexivity. Qed.
+  Lemma ana_step_SLoad' : forall p lines isig inters loads R,
+    ana_step H mx (SLoad p) lines isig (inters, loads, R) =
+    match rlookup p R with
+    | None => inl (ErrLoadBeforeStore p)
+    | Some sg => inr (inters, rupdate p sg loads, R)
+    end.
+  Proof. reflexivity. Qed.
+
+  Lemma rs_set_path : forall x p, rs (sfi_set_path x p) = fi_set_path (rs x) p.
+  Proof. intros [s q n a l c] p. reflexivity. Qed.
+
+  Lemma FF_call : forall g, FF_fn g ->
+    forall lines line eline isig inters loads R nr posts post,
+    (forall t R', post (rs t) (rp R') = r3 (posts t R')) ->
+    call_g' g (call_ctx H mx lines line eline (rd isig) (map rs inters) (rp loads)) nr post (rp R) =
+    rmap3 (scall_g hv0 hl0 g (scall_ctx hl0 lines line eline isig inters loads) nr posts R).
+  Proof.
+    intros g Hg lines line eline isig inters loads R nr posts post Hpost.
+    rewrite call_ctx_render. unfold call_g', scall_g.
+    destruct (scall_ctx hl0 lines line eline isig inters loads) as [e|c]; [reflexivity|].
+    destruct nr as [e|named]; [reflexivity|].
+    specialize (Hg (named, Some c) R). unfold rkey in Hg. cbn [fst snd option_map] in Hg. rewrite Hg.
+    destruct (sana hv0 hl0 g (named, Some c) R) as [e|[t R']]; [reflexivity|].
+    cbn [rmap rmap3]. rewrite Hpost. reflexivity.
+  Qed.
+
+  Lemma FF_all :
+    (forall f, FF_fn f) /\ (forall b, FF_bodies b) /\ (forall b, FF_body b) /\ (forall s, FF_steps s) /\ (forall s, FF_step s).
+  Proof.
+    apply prog_mutind.
+    - (* Fn *)
+      intros name tag raises lines params annot is_class bds [Hb Hb1] A R.
+      rewrite ana_eq', sana_eq. destruct is_class.
+      + rewrite Hb. destruct (sana_bodies hv0 hl0 bds name lines None A R) as [e|[xs R1]]; [reflexivity|].
+        cbn [rmap_l]. rewrite hash_lines_render. destruct (shash_lines hl0 lines) as [e|bsig]; [reflexivity|].
+        rewrite siglist_render.
+        change ((k_body_sig, rd bsig) :: rp (sfis_siglist xs)) with (rp ((k_body_sig, bsig) :: sfis_siglist xs)).
+        rewrite X_render. cbn [SX option_map rmap]. rewrite render_sfi_eq. reflexivity.
+      + destruct bds as [|b r]; [reflexivity|].
+        rewrite Hb1. destruct (sana_body hv0 hl0 b name lines annot A R) as [e|[x R1]]; [reflexivity|].
+        cbn [rmap]. destruct annot as [p|]; [|reflexivity]. rewrite fi_sig_render, rupdate_render. reflexivity.
+    - (* BNil *)
+      split; [|exact I]. intros name lines annot A R. reflexivity.
+    - (* BCons *)
+      intros b Hb r [Hr _]. split; [|exact Hb]. intros name lines annot A R.
+      rewrite ana_bodies_cons', sana_bodies_cons, Hb.
+      destruct (sana_body hv0 hl0 b name lines annot A R) as [e|[x R1]]; [reflexivity|].
+      cbn [rmap]. rewrite Hr. destruct (sana_bodies hv0 hl0 r name lines annot A R1) as [e|[xs R2]]; reflexivity.
+    - (* Body *)
+      intros vars exts sts Hsts name lines annot [named key] R.
+      rewrite ana_body_eq', sana_body_eq. unfold rkey. cbn [fst snd].
+      rewrite argpairs_render. destruct (sargpairs (named, key)) as [e|ap]; [reflexivity|].
+      rewrite varpairs_render. destruct (svarpairs hv0 vars) as [e|vp]; [reflexivity|].
+      rewrite extpairs_render, input_sig_render.
+      specialize (Hsts lines (match SX (ap ++ sextpairs exts ++ vp) with Some s => s | None => sempty_list_hash end)
+                       ([], [], R)).
+      cbn [r3 map render_pairs] in Hsts. cbn [render_pairs map] . rewrite Hsts.
+      destruct (sana_steps hv0 hl0 sts lines _ ([], [], R)) as [e|[[inters loads] R1]]; [reflexivity|].
+      cbn [rmap3 r3]. rewrite hash_lines_render. destruct (shash_lines hl0 lines) as [e|bsig]; [reflexivity|].
+      rewrite siglist_render, dep_pairs_render.
+      change ([(k_body_sig, rd bsig)]) with (rp [(k_body_sig, bsig)]).
+      rewrite <- !rp_app, X_render.
+      destruct (SX _) as [s|]; [|reflexivity].
+      cbn [option_map rmap]. rewrite render_sfi_eq. unfold render_pairs at 1. rewrite map_map. reflexivity.
+    - (* SNil *)
+      intros lines isig acc. reflexivity.
+    - (* SCons *)
+      intros s Hs r Hr lines isig acc.
+      rewrite ana_steps_cons', sana_steps_cons, Hs.
+      destruct (sana_step hv0 hl0 s lines isig acc) as [e|acc']; [reflexivity|]. cbn [rmap3]. apply Hr.
+    - (* SCall *)
+      intros line eline g Hg args lines isig [[inters loads] R]. cbn [r3].
+      rewrite ana_step_SCall', sana_step_SCall, callee_ctx_plain_render. apply FF_call; [exact Hg|].
+      intros t R'. cbn [r3]. rewrite map_app. reflexivity.
+    - (* SRef *)
+      intros line g Hg ex lines isig [[inters loads] R]. cbn [r3].
+      rewrite ana_step_SRef', sana_step_SRef, callee_ctx_plain_render. apply FF_call; [exact Hg|].
+      intros t R'. cbn [r3]. rewrite map_app. reflexivity.
+    - (* SApply *)
+      intros g Hg lines isig acc. rewrite ana_step_SApply', sana_step_SApply. reflexivity.
+    - (* SKeep *)
+      intros line eline p g Hg pos kw lines isig [[inters loads] R]. cbn [r3].
+      rewrite ana_step_SKeep', sana_step_SKeep, arg_ctx_ast_render. apply FF_call; [exact Hg|].
+      intros t R'. cbn [r3]. rewrite map_app, fi_sig_render, rupdate_render. cbn [map]. rewrite rs_set_path. reflexivity.
+    - (* SLoad *)
+      intros p lines isig [[inters loads] R]. cbn [r3].
+      rewrite ana_step_SLoad', sana_step_SLoad, rlookup_render.
+      destruct (srlookup p R) as [sg|]; [|reflexivity]. cbn [option_map rmap3 r3]. rewrite rupdate_render. reflexivity.
+  Qed.
+
+  (* interpreting the symbolic analysis with H gives the analysis of Sig.v: same errors, same tree, same signatures *)
+  Theorem sana_faithful : forall f named key R,
+    ana H mx f (named, option_map (render H) key) (render_pairs H R) =
+    match sana hv0 hl0 f (named, key) R with
+    | inl e => inl e
+    | inr (x, R') => inr (render_sfi H x, render_pairs H R')
+    end.
+  Proof. intros f named key R. exact (proj1 FF_all f (named, key) R). Qed.
+End Faithful.
